@@ -154,7 +154,7 @@ def run(tier, seed, which="C01"):
         tp, rc, err = kv.run_kvdrive("\n".join(lines) + "\n", bwd, "t", timeout=(240 if len(b) == 1 else 120))
         add_out_events(tp)
         try:
-            res = kv.run_tlc("WeaveTrace", "WeaveTrace.cfg", bwd, trace=tp, cont=True, timeout=1200, heap="3g")
+            res = kv.run_tlc("WeaveTrace", "WeaveTrace.cfg", bwd, trace=tp, timeout=1200, heap="3g")
         except kv.Broken as e:
             return bi, rc, err, None, str(e)
         return bi, rc, err, res, None
